@@ -98,7 +98,9 @@ func TestVerifBounded(t *testing.T) {
 	}{{"utest", UTest}, {"ttest", TTest}, {"none", NoDeltaTest}} {
 		for i, a := range samples {
 			for j, b := range samples {
-				for _, unit := range []string{"ns/op", "MB/s"} {
+				// only the plain MB/s metric is better when higher; a prefixed one such as
+				// disk-MB/s is its own metric and, like every other, better when lower
+				for _, unit := range []string{"ns/op", "MB/s", "disk-MB/s", "widgets/op"} {
 					n++
 					c := &Collection{DeltaTest: tc.test}
 					c.AddConfig("old", []byte(verifInput("X", a, unit)))
@@ -228,6 +230,33 @@ func TestVerifBounded(t *testing.T) {
 			}
 		}
 	}
+	// a configuration without any usable result is still a configuration: it keeps its
+	// column (so three configurations are not silently compared as two)
+	for _, barren := range []string{"", "PASS\nok  \tpkg\t1.0s\n", "BenchmarkX 0 1 ns/op\nBenchmarkX\n"} {
+		n++
+		cb := &Collection{}
+		cb.AddConfig("old", []byte("BenchmarkX 1 10 ns/op\nBenchmarkX 1 11 ns/op\n"))
+		cb.AddConfig("mid", []byte(barren))
+		cb.AddConfig("new", []byte("BenchmarkX 1 20 ns/op\nBenchmarkX 1 21 ns/op\n"))
+		tb := cb.Tables()
+		if len(tb) != 1 || fmt.Sprint(tb[0].Configs) != "[old mid new]" {
+			bad("configurations old, mid (no results: %q), new: tables %d, configurations %v; want one table with [old mid new]", barren, len(tb), func() []string {
+				if len(tb) > 0 {
+					return tb[0].Configs
+				}
+				return nil
+			}())
+			continue
+		}
+		for _, r := range tb[0].Rows {
+			if len(r.Metrics) != 3 || r.Metrics[0] == nil || r.Metrics[2] == nil || r.Metrics[0].Mean != 10.5 || r.Metrics[2].Mean != 20.5 || r.Delta != "" && r.Delta != "~" && tb[0].OldNewDelta {
+				bad("configurations old, mid (no results), new: row %+v of table %+v", r, tb[0])
+			}
+		}
+		if tb[0].OldNewDelta {
+			bad("three configurations (the middle one without results) are reported as an old/new comparison")
+		}
+	}
 	n++
 	cg := &Collection{AddGeoMean: true}
 	cg.AddConfig("c", []byte("BenchmarkA 1 2 ns/op\nBenchmarkB 1 8 ns/op\nBenchmarkC 1 0 ns/op\n"))
@@ -235,5 +264,5 @@ func TestVerifBounded(t *testing.T) {
 	if last := gr[len(gr)-1]; last.Benchmark != "[Geo mean]" || math.Abs(last.Metrics[0].Mean-4) > 1e-12 {
 		bad("geomean row %+v, want the geometric mean 4 of the non-zero means", last)
 	}
-	fmt.Printf("BOUNDED-RESULT {\"cases\": %d, \"failures\": %d, \"bound\": \"10 samples (constant non-representable values, outliers on either side, singletons): retained values and min<=mean<=max; every ordered pair x 3 delta tests x 2 metrics: delta gate (incl. p exactly at the threshold), percentage, direction, note; 20-row table: first-appearance order, stability of 3 orders, geomean row\", \"exhaustive\": false}\n", n, fails)
+	fmt.Printf("BOUNDED-RESULT {\"cases\": %d, \"failures\": %d, \"bound\": \"10 samples (constant non-representable values, outliers on either side, singletons): retained values and min<=mean<=max; every ordered pair x 3 delta tests x 4 units (plain and prefixed MB/s, two lower-is-better units): delta gate (incl. p exactly at the threshold), percentage, direction, note; 20-row table: first-appearance order, stability of 3 orders, geomean row; a configuration without results keeps its column\", \"exhaustive\": false}\n", n, fails)
 }
